@@ -1112,16 +1112,19 @@ def subtitle_end_fn(ctx: "Wtp", token: str) -> None:
 
     kind = SUBTITLE_TO_KIND[token]
 
-    # Keep popping formats until we get to the subtitle node
+    # Keep popping formats until we get to the subtitle node whose title
+    # is still open.  (After its title has been moved to largs a subtitle
+    # node stays on the stack as the container of its section.)  The line
+    # number cannot be used to recognize the node: links and templates in
+    # the title may contain newlines, which advance ctx.linenum.
     pop_count = 0
     find_start_node = False
     for parent_node in reversed(ctx.parser_stack):
-        if parent_node.loc != ctx.linenum:
-            break
-        if parent_node.kind == kind:
-            for _ in range(pop_count):
-                _parser_pop(ctx, True)
-            find_start_node = True
+        if parent_node.kind in KIND_TO_LEVEL:
+            if parent_node.kind == kind and not parent_node.largs:
+                for _ in range(pop_count):
+                    _parser_pop(ctx, True)
+                find_start_node = True
             break
         pop_count += 1
 
@@ -2254,7 +2257,9 @@ def bold_follows(parts: list[str], i: int) -> bool:
     return False
 
 
-def token_iter(ctx: "Wtp", text: str) -> Iterator[tuple[bool, str]]:
+def token_iter(
+    ctx: "Wtp", text: str, in_heading: bool = False
+) -> Iterator[tuple[bool, str]]:
     """Tokenizes MediaWiki page content.  This yields (is_token, text) for
     each token.  ``is_token`` is False for text and True for other tokens.
     Wikitext bold and italic are interpreted WITHIN A SINGLE LINE.  It seems
@@ -2285,8 +2290,10 @@ def token_iter(ctx: "Wtp", text: str) -> Iterator[tuple[bool, str]]:
     for line in lines:
         if not line.strip(" \t"):
             continue
-        # Detected headers before partitioning on "''"s
-        hm = header_re.match(line)
+        # Detected headers before partitioning on "''"s.  The title of a
+        # heading is not itself scanned for headings: "= =a= =" is one
+        # heading with the title "=a=" and gets one end token.
+        hm = None if in_heading else header_re.match(line)
         if hm:
             token = hm.group(0)
             if token.startswith("="):
@@ -2314,7 +2321,7 @@ def token_iter(ctx: "Wtp", text: str) -> Iterator[tuple[bool, str]]:
                     start = start[: len(end)]
                 yield True, "<" + start
                 # Tokenize header contents
-                for x in token_iter(ctx, mid):
+                for x in token_iter(ctx, mid, in_heading=True):
                     yield x
                 # The two heading tokens returned here should be identical,
                 # so we use `start` for both, which has been modified if
